@@ -110,3 +110,17 @@ Fixpoint hist_ok (g : graph) (os : list op) : bool :=
   | [] => true
   | o :: r => op_ok g o && match step g o with Ok x => hist_ok (snd x) r | _ => true end
   end.
+
+(** result codes of the concrete operations, as in [step] *)
+Definition inc_code (r : inc_result) : Z := match r with IncOk => 0 | IncCycle => 1 end.
+Definition sort_code (e : option sort_err) : Z :=
+  match e with None => 0 | Some CyclicReference => 2 | Some KeyNotFound => 3 end.
+(** the reference graph after a whole history *)
+Fixpoint r_run (g : rgraph) (os : list op) : rgraph :=
+  match os with [] => g | o :: r => r_run (snd (r_step g o)) r end.
+(** answers of [parents] compared as sets *)
+Definition opt_set_eq (a b : option (list Z)) : Prop :=
+  match a, b with Some l, Some l' => set_eq l l' | None, None => True | _, _ => False end.
+(** histories made of add / inc_ref / remove / sort only *)
+Definition no_rename (os : list op) : bool :=
+  forallb (fun o => match o with ORename _ _ => false | _ => true end) os.
